@@ -298,7 +298,7 @@ def b_slabs(ch):
     that cross a digit boundary, a long union, a long list of #n, cards continued over many lines, an IMP data
     card with a long repeat.  The reference is the slab index of the point."""
     st = St('c01 slabs')
-    n = ch.choose('slabs', [12, 40, 130], free=True)
+    n = ch.choose('slabs', [12, 40, 100, 130], free=True)
     numbering = ch.choose('numbering', ['1..N', 'across-100', 'across-100000', 'descending', 'shuffled'], free=True)
     style = ch.choose('style', ['plain', 'every-3rd-by-complement', 'long-union', 'pairs-in-parentheses'], free=True)
     wrap = ch.choose('wrap', ['none', 'wrap5-70', 'amp-40', 'wrap5-30'], free=True)
@@ -318,7 +318,7 @@ def b_slabs(ch):
     st.surfs = ['%d px %s' % (sid[i], fmt(xs[i])) for i in range(n + 1)]
     # cells: slab k between plane k and plane k+1; the last two cells are the long union / the outside
     members = list(range(n))
-    union_members = [k for k in members if style == 'long-union' and k % 4 == 1]
+    union_members = [k for k in members if style == 'long-union' and k % 2 == 1]
     cells, owner_of_slab, imps = [], {}, {}
     for k in members:
         if k in union_members:
@@ -375,6 +375,69 @@ def b_slabs(ch):
     return st
 
 
+def b_polygon(ch):
+    """a regular N-gon prism: the inside is an intersection of N half-spaces (one long MINUS list), the outside
+    a union of N half-spaces (one long UNION list); N around the multiples of 50"""
+    import math
+    st = St('c01 polygon')
+    n = ch.choose('sides', [12, 49, 50, 51, 99, 100, 101, 120], free=True)
+    first = ch.choose('first-number', [1, 95, 99951], free=True)
+    outside = ch.choose('outside', ['union', 'complement', 'complement-of-expression'], free=True)
+    wrap = ch.choose('wrap', ['wrap5-70', 'amp-60', 'none'], free=True)
+    ids = [first + i for i in range(n)]
+    normals = []
+    for i in range(n):
+        a = 2.0 * math.pi * (i + 0.3) / n
+        nx, ny = math.cos(a), math.sin(a)
+        normals.append((nx, ny))
+        st.surfs.append('%d p %s %s 0 %s' % (ids[i], fmt(round(nx, 12)), fmt(round(ny, 12)), fmt(5.0 + 0.01 * (i % 7))))
+    st.poly = [(round(nx, 12), round(ny, 12), 5.0 + 0.01 * (i % 7)) for i, (nx, ny) in enumerate(normals)]
+    inside = ' '.join('-%d' % i for i in ids)
+    c1, c2 = first + 1000, first + 1001
+    if outside == 'union':
+        out = ' : '.join('%d' % i for i in ids)
+    elif outside == 'complement':
+        out = '#%d' % c1
+    else:
+        out = '#(%s)' % inside
+    cards = ['%d 0 %s imp:n=1' % (c1, inside), '%d 0 %s imp:n=1' % (c2, out)]
+    if wrap != 'none':
+        cards = [wrap_card(c, int(wrap.split('-')[1]), 'amp' if wrap.startswith('amp') else 'wrap5') for c in cards]
+    st.cells = cards
+    st.poly_cells = (c1, c2)
+    return st
+
+
+def check_polygon(scn, st):
+    r = env.run(st.deck_text, st.options)
+    if not r.ok:
+        return verdict(False, st, cls={'kind': 'exception', 'exc': r.exc_type, 'scenario': 'polygon'},
+                       msg='conversion of a valid deck failed: %s\n%s' % (r.brief(), st.deck_text[:1500]),
+                       out='err:' + r.exc_type)
+    t4 = t4read.parse(r.t4)
+    cls, msg = oracle.structural_cls(t4, st.options)
+    if cls:
+        return verdict(False, st, cls=cls, msg=msg, out=sha(r.body))
+    N = np.array([(a, b, 0.0) for a, b, d in st.poly]); D = np.array([d for a, b, d in st.poly])
+    pts = [(0.0, 0.0, 0.0), (0.5, -0.3, 7.0)]
+    for (a, b, d) in st.poly:
+        for t in (-0.02, 0.004, 0.5, 3.0):       # just inside, just outside (beyond one facet only), far outside
+            pts.append((a * (d + t), b * (d + t), 0.25))
+    P = np.array(pts)
+    val = P @ N.T - D
+    clear = (np.abs(val) > 1e-6).all(axis=1)
+    P, val = P[clear], val[clear]
+    ins = (val < 0).all(axis=1)
+    c1, c2 = st.poly_cells
+    exp = np.array([c1 if i else c2 for i in ins], object)
+    bad = oracle.compare_owner(t4, P, exp)
+    stats = {'witness_points': len(P), 'polygon_decks': 1}
+    if bad:
+        return verdict(False, st, cls={'kind': 'membership', 'scenario': 'polygon'},
+                       msg='\n'.join(bad[:8]) + '\n' + st.deck_text[:600], out=sha(r.body), stats=stats)
+    return verdict(True, st, out=sha(r.body), nontrivial=bool(ins.any() and (~ins).any()), stats=stats)
+
+
 def check_slabs(scn, st):
     r = env.run(st.deck_text, st.options)
     if not r.ok:
@@ -415,6 +478,8 @@ def scenarios(tier):
             Scn('slabs', b_slabs, None, None,
                 'beyond the small scope: 12 / 40 / 130 slabs, numbers across a digit boundary, long unions and #n '
                 'lists, cards over many lines, IMP data card with long repeats'),
+            Scn('polygon', b_polygon, None, None,
+                'N-gon prisms, N = 12 ... 120 around the multiples of 50: one intersection / one union of N half-spaces'),
             Scn('p2-k3', b_p2(LITS4, [1, 2, 3]), None, None, 'full product, 4 planes, k<=3'),
             Scn('p2-mixed-k2', b_p2(LITSX, [1, 2], compl_inner=True, renumber=True), None, None,
                 'full product, oblique plane + rpp whole/facets, k<=2'),
@@ -438,6 +503,8 @@ def scenarios(tier):
         Scn('slabs', b_slabs, None, None,
             'beyond the small scope: 12 / 40 / 130 slabs, numbers across a digit boundary, long unions and #n '
             'lists, cards over many lines, IMP data card with long repeats'),
+        Scn('polygon', b_polygon, None, None,
+            'N-gon prisms, N = 12 ... 120 around the multiples of 50: one intersection / one union of N half-spaces'),
         Scn('p2-k4', b_p2(LITS4, [1, 2, 3, 4]), None, None, 'full product, 4 planes, k<=4'),
         Scn('p2-mixed-k3', b_p2(LITSX, [1, 2, 3], compl_inner=True), None, None,
             'full product, oblique plane + rpp whole/facets, k<=3 with inner #( )'),
@@ -486,6 +553,8 @@ def evaluate(st, t4, flip=None):
 def check_state(scn, st):
     if hasattr(st, 'slab_x'):
         return check_slabs(scn, st)
+    if hasattr(st, 'poly'):
+        return check_polygon(scn, st)
     r = env.run(st.deck_text, st.options)
     if not r.ok:
         # acceptable only if the reference has no point in a cell of non-zero importance
